@@ -143,12 +143,19 @@ def run_py(cfg, hist, pr) -> Tuple[List[Any], List[int]]:
         else:
             v = m.read_bytes(op[1], op[2])
             # the word/long helpers must agree with the generic multi-byte read: when one differs its value is reported
-            if op[2] == 2 and m.read_word(op[1]) != v:
-                v = m.read_word(op[1])
-            if op[2] == 3 and m.read_long(op[1]) != v:
-                v = m.read_long(op[1])
+            alt = m.read_word(op[1]) if op[2] == 2 else m.read_long(op[1]) if op[2] == 3 else v
+            if alt != v:
+                # the two entry points disagree: the one that is not the little-endian composition of the byte reads is reported
+                comp = sum((m.read_byte(op[1] + k) & 0xFF) << (8 * k) for k in range(op[2]))
+                v = alt if v == comp else v
             outs.append(v)
-    return outs, [m.read_byte(p) for p in pr]
+    pv = [m.read_byte(p) for p in pr]
+    # the probes once more in descending order: what a location reads must not depend on which one was read before it
+    for i in range(len(pr) - 1, -1, -1):
+        v2 = m.read_byte(pr[i])
+        if v2 != pv[i]:
+            pv[i] = v2
+    return outs, pv
 
 
 def rs_cfg(cfg):
